@@ -14,6 +14,7 @@ from __future__ import annotations
 from typing import Iterator, List, overload, Optional
 from typing_extensions import Literal
 
+from spil import conf
 from spil.sid.sid import Sid
 from spil.sid.read.util import first
 from spil.sid.read.tools import unfold_search
@@ -78,8 +79,10 @@ class Finder:
             Generator over Sids or strings
         """
         # shortcut if Sid is not a search
+        # (a trailing query or an extension alias still need to be unfolded, as any other search)
         sid = Sid(search_sid)
-        if sid and not sid.is_search():
+        is_plain = "?" not in str(search_sid) and str(sid).split(conf.sip)[-1] not in conf.extension_alias
+        if sid and not sid.is_search() and is_plain:
             generator = self.do_find([sid], as_sid=as_sid)
         else:
             search_sids = unfold_search(search_sid)
